@@ -257,12 +257,25 @@ Fixpoint parse_hex_acc (acc : N) (s : str) : option N :=
   | [] => Some acc
   | x :: r => match hex_val x with Some d => parse_hex_acc (acc * 16 + d) r | None => None end
   end.
-(** int(s, 16) restricted to: surrounding whitespace, optional sign, optional 0x/0X, hex digits
-    (underscores are not modelled: treated as an error) *)
+(** int(s, 16) for ASCII text: surrounding whitespace, optional sign, optional 0x/0X, hex digits
+    with single underscores between digits (and one allowed right after the 0x prefix) *)
+Definition is_hexd (x : N) : bool := match hex_val x with Some _ => true | None => false end.
+Fixpoint us_ok16 (prev_digit : bool) (s : str) : bool :=
+  match s with
+  | [] => true
+  | x :: r => if x =? 95
+              then prev_digit && (match r with y :: _ => is_hexd y | [] => false end) && us_ok16 false r
+              else us_ok16 (is_hexd x) r
+  end.
 Definition py_int16 (s : str) : option Z :=
+  let digits (t : str) : option N :=
+    if us_ok16 false t then match drop_us t with [] => None | d => parse_hex_acc 0 d end else None in
   let body (t : str) : option N :=
-    let t' := match t with 48 :: 120 :: r => r | 48 :: 88 :: r => r | _ => t end in
-    match t' with [] => None | _ => parse_hex_acc 0 t' end in
+    match t with
+    | 48 :: 120 :: 95 :: r | 48 :: 88 :: 95 :: r => digits r
+    | 48 :: 120 :: r | 48 :: 88 :: r => digits r
+    | _ => digits t
+    end in
   match strip_with is_ws_int s with
   | 45 :: r => option_map (fun n => Z.opp (Z.of_N n)) (body r)
   | 43 :: r => option_map Z.of_N (body r)
